@@ -105,7 +105,9 @@ def gen_instance(rng, graph=None, max_comps=6, max_agents=4, tiny=False, asymmet
     zero_cap = [d["name"] for d in adefs if d["capacity"] == 0]
     if zero_cap and names and rng.random() < 0.5:
         # a hint asking an agent without any capacity to host a computation (impossible unless the footprint is 0)
-        hints["must_host"].setdefault(rng.choice(zero_cap), []).append(rng.choice(names))
+        free_names = [n for n in names if not any(n in ns for ns in hints["must_host"].values())]
+        if free_names:  # a computation is pinned on one agent at most (contradictory hints are not valid input)
+            hints["must_host"].setdefault(rng.choice(zero_cap), []).append(rng.choice(free_names))
     if graph == "factor_graph" and case["constraints"] and rng.random() < secp_hint_p:
         # SECP-like "model" hint: a factor hosted with one of the variables of its scope
         c = rng.choice(case["constraints"])
